@@ -355,6 +355,9 @@ def check(ctx, rep):
 
     rule_no_dup_keyword(ctx, rep)
     rule_scan_targets(ctx, rep)
+    from .c06 import rule_rule_keyed
+
+    rule_rule_keyed(ctx, rep)
     rep.not_covered += [
         "agreement of semgrep positions with libcst positions for all spellings (line/column matching)",
         "semgrep's matching semantics in general (metavariable unification, taint propagation)",
